@@ -180,7 +180,7 @@ impl Check for C10 {
 
     fn runs(&self, tier: Tier) -> u64 {
         match tier {
-            Tier::Quick => 30_000,
+            Tier::Quick => 60_000,
             Tier::Thorough => 1_000_000,
         }
     }
